@@ -20,6 +20,9 @@ func main() {
 	for _, kv := range [][2]string{{"GOFLAGS", "-mod=mod"}, {"GOPROXY", "off"}, {"GOSUMDB", "off"}, {"GOTOOLCHAIN", "local"}, {"CGO_ENABLED", "0"}} {
 		os.Setenv(kv[0], kv[1])
 	}
+	if d := os.Getenv("GOVC_VERIF"); d != "" {
+		verifDir = d
+	}
 	if d := os.Getenv("GOVC_REPO"); d != "" {
 		repoDir = d
 	}
